@@ -578,6 +578,9 @@ func (p *Program) copyFileAs(src, dst *File) {
 		nd.Type = remapType(d.Type, src.Index, dst.Index)
 		nd.Value = remapVal(d.Value, src.Index, dst.Index)
 		nd.Parent = remapRef(d.Parent, src.Index, dst.Index)
+		if d.ParentVia-1 == src.Index {
+			nd.ParentVia = dst.Index + 1
+		}
 		nd.Items = append([]EnumItem{}, d.Items...)
 		nd.Fields = remapFields(d.Fields, src.Index, dst.Index)
 		nd.Funcs = nil
